@@ -321,7 +321,6 @@ func run(raw json.RawMessage) (hx.Case, error) {
 	}
 	if bridging {
 		tags["shape:event-driven-bridges-two-connections"] = true
-		c.Known = "ticknow_same_instant_after_handled_tick"
 	}
 	stranded := false
 	for _, f := range o.Final {
@@ -349,7 +348,7 @@ func run(raw json.RawMessage) (hx.Case, error) {
 
 // witness is the topology of DESIGN §3 C09: connection X0 ticks at T without
 // progress, X1 ticks at T and delivers to the event-driven relay C1, whose
-// same-instant wakeup sends on X0; X0's TickNow is dropped.
+// same-instant wakeup sends on X0; before the fix X0's TickNow was dropped.
 func witness() input {
 	// ports: 0: K.a on X0 (sends to the never-deliverable port 4)   1: K.b on X1 (sends to relay)
 	//        2: E.in on X1      3: E.out on X0     4: Z on X0 with incoming capacity 0    5: R on X0 (final receiver)
